@@ -10,7 +10,7 @@
    record, empty key, any number of peer records, any id / address sizes, any
    (un)decodable address, any int32 enum value. *)
 From Verif.Lib Require Import GoSem Bits.
-From Verif.Gen Require Import Consts.
+From Verif.Gen Require Import Consts Dispatch.
 From Verif.Model Require Import PeerRecord ClientRpc.
 From Verif.Proofs Require Import PeerRecordProofs ClientRpcProofs.
 Local Open Scope Z_scope.
